@@ -83,6 +83,29 @@ def synth(rnd, t, n_instr, caches=None, small_nonjump=False, no_ext=False):
     return code
 
 
+def all_opcodes(rnd, t, caches=None, chunk=40):
+    """every defined opcode of the table at least once (sequences of `chunk` instructions), operands kept valid as in synth()"""
+    defined = sorted(v for k, v in t["opmap"] if v < 256 and not k.startswith("INSTRUMENTED") and v != t["EXTENDED_ARG"])
+    vt = tuple(t["version_tuple"])
+    out = []
+    for i in range(0, len(defined), chunk):
+        code = []
+        for op in defined[i:i + chunk]:
+            name = t["opname"][op]
+            arg = rnd.choice([1, 2, 5, 6, 9, 11, 13, 300])
+            if vt < (3, 6):
+                arg = min(arg, 2 ** 31 - 1)
+            if op in t["hascompare"]:
+                arg = rnd.randrange(0, 6) << (5 if vt >= (3, 13) else 4 if vt >= (3, 12) else 0)
+            elif name in ("RAISE_VARARGS", "BINARY_OP", "CALL_INTRINSIC_1", "CALL_INTRINSIC_2"):
+                arg = rnd.randrange(0, 3)
+            emit(t, op, arg, code)
+            if caches:
+                code += [0, 0] * caches.get(name, 0)
+        out.append(code)
+    return out
+
+
 def corpus_files(limit_per_dir=None):
     out = []
     for d in sorted(glob.glob(os.path.join(C.REPO, "test", "bytecode_*"))):
